@@ -38,24 +38,24 @@ def showChunks (l : List Chunk) : String := "/".intercalate (l.map fun c => s!"{
 
 def query (t : Tables) (q : List String) : Option String :=
   let n := t.stsz.nrSamples
-  let ns := List.range' 1 n
+  let ns := fun (_ : Unit) => List.range' 1 n
   match q with
-  | ["dt"] => some (join (ns.map fun i => opt (fun (p : Nat × Nat) => s!"{p.1}:{p.2}") (t.stts.getDecodeTime i)))
-  | ["dur"] => some (join (ns.map fun i => opt toString (t.stts.getDur i)))
+  | ["dt"] => some (join ((ns ()).map fun i => opt (fun (p : Nat × Nat) => s!"{p.1}:{p.2}") (t.stts.getDecodeTime i)))
+  | ["dur"] => some (join ((ns ()).map fun i => opt toString (t.stts.getDur i)))
   | ["nratall", tmax] => do
       let m ← tmax.toNat?
       some (join ((List.range (m + 1)).map fun x => match t.stts.getSampleNrAtTime x with | some k => toString k | none => "e"))
   | ["cto"] => some (match t.ctts with
       | none => "-"
-      | some c => join (ns.map fun i => opt toString (c.getCto i)))
-  | ["sz"] => some (join (ns.map fun i => opt toString (t.stsz.getSampleSize i)))
+      | some c => join ((ns ()).map fun i => opt toString (c.getCto i)))
+  | ["sz"] => some (join ((ns ()).map fun i => opt toString (t.stsz.getSampleSize i)))
   | ["tot", a] => do
       let a ← a.toNat?
       some (join ((List.range' a (n + 2 - a)).map fun b => match t.stsz.getTotalSampleSize a b with | some k => toString k | none => "e"))
   | ["sync"] => some (match t.stss with
       | none => "-"
-      | some l => join (ns.map fun i => if isSyncSample l i then "1" else "0"))
-  | ["chunkof"] => some (join (ns.map fun i => opt (fun (p : Nat × Nat) => s!"{p.1}:{p.2}") (t.stsc.chunkNrFromSampleNr i)))
+      | some l => join ((ns ()).map fun i => if isSyncSample l i then "1" else "0"))
+  | ["chunkof"] => some (join ((ns ()).map fun i => opt (fun (p : Nat × Nat) => s!"{p.1}:{p.2}") (t.stsc.chunkNrFromSampleNr i)))
   | ["chunk"] => some (join ((List.range' 1 t.offsets.length).map fun c => opt (fun (k : Chunk) => s!"{k.startSampleNr}:{k.nrSamples}") (t.stsc.getChunk c)))
   | ["off"] => some (join ((List.range (t.offsets.length + 2)).map fun c => match getOffset t.offsets c with | some k => toString k | none => "e"))
   | ["chunks", a] => do
